@@ -16,32 +16,44 @@ ASSUMPTIONS = [
 
 BODY1 = (('op', 'X', 0, None),)
 BODY2 = (('op', 'X', 0, None), ('op', 'M', 1, None))
+BODY3 = (('op', 'B', 0, None), ('op', 'M', 1, None))   # a root of fixed length in front of a measurement (global length); repeated
 
 
 def enabled(prefix):
     """Mutations enabled after a prefix (relation targets range over live entries; exit only inside an override)."""
     live = []      # indices of entries that can be referred to
+    blocks = []    # indices of live entries that are blocks (can be grown through their own add)
     n = 0
     inside = False
     for ev in prefix:
         k = ev[0]
         if k in ('add', 'sub', 'rel'):
-            live.append(n); n += 1
+            live.append(n)
+            if k == 'sub':
+                blocks.append(n)
+            n += 1
         elif k == 'flatten':
             live = []          # blocks are dissolved; leaf entries stay valid but are re-linked: keep the alphabet simple
+            blocks = []
         elif k == 'nest':
             live = [0]; n = 1
+            blocks = [0]
         elif k == 'enter':
             inside = True
         elif k == 'exit':
             inside = False
     out = [('add', 'X', 0), ('add', 'R', 1), ('add', 'M', 0), ('add', 'Wreg', 0), ('add', 'B', 0),
-           ('sub', 2, BODY1), ('sub', 1, BODY2)]
+           ('sub', 2, BODY1), ('sub', 1, BODY2), ('sub', 2, BODY3)]
     for i in live:
         out.append(('rel', 'FB', i))
         out.append(('rel', 'JE', i))
+    for i in blocks:
+        out.append(('grow', i))
     out += [('apply',), ('flatten',), ('nest',), ('setreg', 5.0)]
-    out.append(('exit',) if inside else ('enter', 'G'))
+    if inside:
+        out.append(('exit',))
+    else:
+        out += [('enter', 'G'), ('enter', 'Rdo')]
     return out
 
 
